@@ -110,7 +110,7 @@ func nearestLang(n *xmodel.Node) (string, bool) {
 func TestC12(t *testing.T) {
 	runWitnesses(t, "C12")
 	runProp(t, "names", 120000, 1000000, func(t *rapid.T) {
-		c, p := genDocCase(t, caseOpts{cfg: xmodel.GenCfg{MaxDepth: 3, MaxKids: 3, MaxTop: 2, Forest: true}, anyCtx: true, nodeVars: true},
+		c, p := genDocCase(t, caseOpts{cfg: xmodel.GenCfg{MaxDepth: 3, MaxKids: 3, MaxTop: 2, Forest: true, Stress: true}, anyCtx: true, nodeVars: true},
 			func(g *xast.G, p *prepared) *xast.Expr {
 				fn := []string{"name", "local-name", "namespace-uri"}[rapid.IntRange(0, 2).Draw(g.T, "fn")]
 				switch rapid.IntRange(0, 5).Draw(g.T, "argKind") {
